@@ -509,7 +509,7 @@ def oracle_C14(r):
     return out
 
 
-ORACLES = {'C03': oracle_C13, 'C12': oracle_C12, 'C13': oracle_C13, 'C14': oracle_C14, 'C15': oracle_C15, 'C20': oracle_C20}
+ORACLES = {'C03': oracle_C13, 'C16': (lambda r: oracle_C12(r) + oracle_C13(r)), 'C12': oracle_C12, 'C13': oracle_C13, 'C14': oracle_C14, 'C15': oracle_C15, 'C20': oracle_C20}
 
 
 # ------------------------------------------------------------------ known findings (committed file; never written here)
@@ -542,11 +542,14 @@ def generator_part(run, pid, tier, seed, n_quick=40, n_thorough=500, extra_ok=No
         c15 = oracle_C15(r)
         if pid == 'C15':
             problems += c15
+        elif c15 and pid == 'C20' and '\nSVC ' in ('\n' + r.get('fd_dump', '')) and any('svct' in x or '_Service' in x or '__INIT' in x for x in c15):
+            # the per-service test (handlers installed through <SVC>__INIT, every stub called) does not even build
+            problems += ['the generated service structure / initialiser / stubs are inconsistent: ' + x for x in c15[:3]]
         elif c15:
             # the case could not be built: C15 reports it; nothing to compare here
             stats.setdefault('unbuildable', 0); stats['unbuildable'] += 1
             continue
-        if pid != 'C15':
+        if pid != 'C15' and not (c15 and pid == 'C20'):
             if r['model_rc'] != 0:
                 problems.append('model driver failed: ' + r['model_err'])
             else:
